@@ -24,6 +24,7 @@ func init() {
 }
 
 func runC04(ctx *Ctx) {
+	defer runScale(ctx, "", map[string]string{"mode": "deterministic", "prefix": "aabbcc", "cap": "3"}, func(c *Case) error { return checkC04(ctx, c) })
 	n := ctx.N(4000, 40000)
 	for _, t := range ctx.types() {
 		t := t
@@ -58,6 +59,7 @@ func runC04(ctx *Ctx) {
 }
 
 func checkC04(ctx *Ctx, c *Case) error {
+	scaleBytes(c)
 	t, err := mustType(c.Type)
 	if err != nil {
 		return err
